@@ -636,10 +636,84 @@ def gen_builders(tier):
     return cases
 
 
+# ---------------------------------------------------------------------------
+# a list spec walks its target item by item: nothing behind a STOP is pulled from a lazy target
+
+class Source:
+    """one-shot iterator over *items* that counts what was pulled and fails at position raise_at"""
+    def __init__(self, items, raise_at):
+        self.items, self.raise_at, self.pulled = list(items), raise_at, 0
+
+    def __iter__(self):
+        return self
+
+    def __next__(self):
+        i = self.pulled
+        if i == self.raise_at:
+            self.pulled += 1
+            raise RuntimeError('source fails at position %d' % i)
+        if i >= len(self.items):
+            raise StopIteration
+        self.pulled += 1
+        return self.items[i]
+
+
+def run_lazy_list(case):
+    items, stop_value, skip_value, raise_at, wrap = case
+    src = Source(items, raise_at)
+
+    def sub(x):
+        return G.STOP if x == stop_value else G.SKIP if x == skip_value else x * 10
+    want, want_pulled, want_exc = [], 0, None
+    for i in range(len(items) + 1):
+        if i == raise_at:
+            want_pulled += 1
+            want_exc = 'RuntimeError'
+            break
+        if i == len(items):
+            break
+        want_pulled += 1
+        if items[i] == stop_value:
+            break
+        if items[i] != skip_value:
+            want.append(items[i] * 10)
+    spec = [sub] if wrap == 'direct' else (lambda t: t, [sub]) if wrap == 'after-step' else {'k': [sub]}
+    try:
+        got = glom(src, spec)
+        got = got['k'] if wrap == 'dict-value' else got
+        exc = None
+    except Exception as e:
+        got, exc = None, [c.__name__ for c in type(e).__mro__ if c.__module__ == 'builtins'][0]
+    where = {'items': items, 'stop': stop_value, 'skip': skip_value, 'source_fails_at': raise_at, 'position': wrap}
+    if exc != want_exc or (exc is None and got != want):
+        return R({'expected': '%r%s' % (want, ' / ' + want_exc if want_exc else ''), 'observed': '%r / %s' % (got, exc), **where}, 'lazy-list')
+    if src.pulled != want_pulled:
+        return R({'expected': '%d items pulled from the source (nothing behind the STOP)' % want_pulled, 'observed': '%d pulled' % src.pulled, **where}, 'lazy-list-pulls')
+    return R(None, 'stopped' if stop_value in items[:want_pulled] else 'raised' if want_exc else 'exhausted', nontrivial=True, steps=want_pulled,
+             tags={wrap})
+
+
+def gen_lazy_list(tier):
+    import itertools
+    cases = []
+    for n in range(0, 5):
+        for items in itertools.product((1, 2, 3), repeat=n):
+            for stop_value in (None, 2):
+                for skip_value in (None, 3):
+                    for raise_at in [None] + list(range(n + 1)):
+                        for wrap in ('direct', 'after-step', 'dict-value'):
+                            cases.append([list(items), stop_value, skip_value, raise_at, wrap])
+    return cases
+
+
 def subs(tier, only=None):
     from ..engine import fast_tracebacks
     fast_tracebacks()
     out = [
+        Sub('list-spec-laziness', gen_lazy_list(tier), run_lazy_list,
+            rule='case = (items of a one-shot counting source, value at which the sub-spec STOPs, value it SKIPs, position at which the source itself fails, '
+                 'position of the list spec): result, propagated failure and the number of items pulled (nothing behind a STOP is touched)',
+            min_nontrivial=5000, min_outcomes=3, required_tags=['direct', 'after-step', 'dict-value']),
         Sub('invoke-builders', gen_builders(tier), run_builders,
             rule='case = derivation history of depth <= 3 over 8 builder calls (constants / specs / star, re-setting the same keyword), each applied to '
                  'ANY earlier node (forks), optionally evaluating nodes between derivations; afterwards every node must evaluate (and print) like a '
